@@ -426,13 +426,31 @@ def rule_each(env, shared):
                 good = False
                 why = ""
                 vals = ("field", payload, 1, "values", None)
+                clo_call = None  # (closure body, its context, the user call in it) for `values(.enumerate()).for_each(|..| f(..))`
                 if len(fe) + len(ifold) == 1 and not ucalls and some_targets:
                     bi2, t2, c2 = (fe + ifold)[0]
                     a0 = unref(ev.operand(ctx, t2["args"][0]))
                     mustpass = some_targets[0] == bi2 or not a.paths_avoiding(some_targets[0], {bp}, {bi2})
                     isvals = a0[0] == "field" and a0[2] == 1 and a0[1] == payload
-                    good = mustpass and isvals
+                    enum_vals = a0[0] == "call" and a0[1] == "Iterator::enumerate" and a0[2] and \
+                        unref(a0[2][0])[0] == "field" and unref(a0[2][0])[2] == 1 and unref(a0[2][0])[1] == payload
+                    direct_f = _is_user_fn_operand(a, t2["args"][-1])
+                    good = mustpass and isvals and direct_f
                     why = "chunk.values.for_each(f)" if fe else "chunk.values.fold(acc, f)"
+                    if fe and not direct_f and (isvals or enum_vals) and mustpass:
+                        # the function is called by a closure of the algorithm: exactly one call on every path of the closure
+                        clo = unref(ev.operand(ctx, t2["args"][1]))
+                        if clo[0] == "agg" and clo[1].startswith("closure:"):
+                            cb_ = F.bodies.get(clo[1][len("closure:"):])
+                            if cb_ is not None:
+                                cctx_ = Ctx(cb_, params=(clo,), stack=(a.def_, cb_.def_))
+                                ucs = [(bj, tj, cj) for bj, tj, cj in cb_.calls() if _user_call(cj) and not cb_.blocks[bj]["cleanup"]]
+                                if len(ucs) == 1 and (ucs[0][0] == 0 or not cb_.paths_avoiding(0, set(cb_.exits()), {ucs[0][0]})) \
+                                        and not any(ucs[0][0] in lp for (_h, lp) in cb_.natural_loops()):
+                                    good = True
+                                    clo_call = (cb_, cctx_, ucs[0], enum_vals)
+                                    why = "chunk.values%s.for_each(|..| f(..)): one call per element" % (
+                                        ".enumerate()" if enum_vals else "")
                 elif len(ucalls) == 1 and some_targets:
                     bi2, t2, c2 = ucalls[0]
                     inner = [s for s in sccs if bi2 in s and len(s) < len(S)]
@@ -477,6 +495,18 @@ def rule_each(env, shared):
                 k4 = key + "|index"
                 good = False
                 detail = ""
+                if kind != "single" and not ucalls and locals().get("clo_call"):
+                    cb_, cctx_, (bj, tj, cj), enum_vals = clo_call
+                    tup = unref(ev.operand(cctx_, tj["args"][1]))
+                    if enum_vals and tup[0] == "agg" and tup[1] == "tuple" and len(tup[2]) == 2:
+                        i0, v0 = unref(tup[2][0]), unref(tup[2][1])
+                        el = ("param", 2)  # the (i, value) pair handed to the closure by enumerate().for_each
+                        if i0[0] == "bin" and i0[1] == "Add" and v0[0] == "field" and v0[2] == 1 and unref(v0[1]) == el:
+                            for bgn, off in ((unref(i0[2]), unref(i0[3])), (unref(i0[3]), unref(i0[2]))):
+                                if bgn[0] == "field" and bgn[2] == 0 and unref(bgn[1]) == payload and off[0] == "field" \
+                                        and off[2] == 0 and unref(off[1]) == el:
+                                    good = True
+                                    detail = "f(chunk.begin_idx + i, value) for (i, value) of chunk.values.enumerate()"
                 if len(ucalls) == 1:
                     bi2, t2, c2 = ucalls[0]
                     tup = unref(ev.operand(ctx, t2["args"][1]))
@@ -965,8 +995,13 @@ def rule_wrap(env, shared):
             stores = [i for i in range(len(t[2])) if i != pos and ("param", 1) in list(subterms(t[2][i]))]
             # every occurrence of the argument in the stored field is behind identity-like wrappers only
             plain = True
+            from r_m1 import rewrite as _rw
             for i in stores:
-                for x in subterms(t[2][i]):
+                # metadata computed from the argument (its length, its size hint) may be stored in any form: it is not the
+                # collection; what is judged here is that the collection itself is stored as it is
+                ft = _rw(t[2][i], lambda x: ("const", "metadata") if ((x[0] == "ret" and "size_hint" in x[1]) or
+                                                                     (x[0] == "call" and x[1] == "len")) else None)
+                for x in subterms(ft):
                     if x[0] in ("ret",) or (x[0] == "call" and x[1] not in ("conv", "ManuallyDrop::new", "UnsafeCell::new", "len",
                                                                               "Iterator::size_hint")):
                         if ("param", 1) in list(subterms(x)) and not (x[0] == "ret" and "size_hint" in x[1]):
